@@ -15,7 +15,8 @@ from __future__ import annotations
 import inspect
 import ssl
 
-from kit.h import P, run, mark, known
+from kit.h import P, run, mark, known, pin_index, decode_point
+from urllib3 import ProxyManager
 import urllib3
 from urllib3 import PoolManager, Retry, Timeout
 from urllib3.poolmanager import PoolKey, SSL_KEYWORDS
@@ -163,19 +164,80 @@ def _key_body(s1, s2, i1, i2, b1, b2, placement1, placement2, h1, h2, p1, p2, ht
     return True
 
 
-def c18_key(s1: str, s2: str, i1: int, i2: int, b1: bool, b2: bool, placement1: int, placement2: int, h1: int,
-            h2: int, p1: bool, p2: bool, https: bool) -> bool:
+COMBOS = [(pl1, pl2, h1, h2, p1, p2, https)
+          for (pl1, pl2) in ((0, 0), (1, 1), (0, 1), (2, 1), (1, 2))
+          for (h1, h2) in ((0, 0), (0, 1), (2, 1))
+          for (p1, p2) in ((False, False), (False, True))
+          for https in (False, True)]
+
+
+def _key_point(s1, s2, i1, i2, b1, b2, combo):
+    pl1, pl2, h1, h2, p1, p2, https = COMBOS[pin_index(combo, len(COMBOS))]
+    return _key_body(s1, s2, i1, i2, b1, b2, pl1, pl2, h1, h2, p1, p2, https)
+
+
+def c18_key(s1: str, s2: str, i1: int, i2: int, b1: bool, b2: bool, combo: int) -> bool:
     """
-    pre: 0 <= placement1 <= 2 and 0 <= placement2 <= 2
-    pre: 0 <= h1 <= 2 and 0 <= h2 <= 2
+    pre: 0 <= combo < len(COMBOS)
     pre: i1 > 0 and i2 > 0
     pre: len(s1) >= 1 and len(s2) >= 1
     post: _
     """
-    return run(_key_body, s1, s2, i1, i2, b1, b2, placement1, placement2, h1, h2, p1, p2, https)
+    return run(_key_point, s1, s2, i1, i2, b1, b2, combo)
 
 
-def _map_body(kwi, differ, placement, h2, p2, https):
+# ---- explicit falsy value vs. keyword left out ---------------------------------------------------------------------------
+FALSY = [("assert_hostname", False), ("cert_reqs", 0), ("cert_reqs", ssl.CERT_NONE), ("retries", 0), ("retries", False),
+         ("blocksize", 0), ("maxsize", 0), ("ssl_minimum_version", 0), ("timeout", None)]
+
+
+def falsy_dims(part):
+    return [list(range(len(FALSY))), [0, 1], [0, 1, 2], [False, True], [False, True]]
+
+
+def _falsy_point(idx):
+    fi, placement, h2, p2, https = decode_point(idx, falsy_dims)
+    return _falsy_body(fi, placement, h2, p2, https)
+
+
+def _falsy_body(fi, placement, h2, p2, https):
+    """A keyword given explicitly with a falsy value that is NOT its default (assert_hostname=False, cert_reqs=CERT_NONE,
+    retries=0/False, ...) must not share a pool with the context that leaves the keyword out."""
+    name, value = FALSY[fi]
+    scheme = "https" if https else "http"
+    if name == "timeout" and value is None:
+        return True           # timeout=None means "no timeout" but so does the default object's behaviour: not asserted
+    if placement == 0:
+        pm1 = KeySpy(**{name: value})
+        k1 = pm1.connection_from_host("h.example", scheme=scheme)
+    else:
+        pm1 = KeySpy()
+        k1 = pm1.connection_from_host("h.example", scheme=scheme, pool_kwargs={name: value})
+    pm0 = KeySpy()
+    port = (443 if https else 80) if p2 else None
+    k0 = pm0.connection_from_host(HOSTS[h2], port=port, scheme=scheme)
+    if k1 == k0:
+        return _fail("%s=%r (explicit) and %s left out produce the same pool key" % (name, value, name))
+    # map layer: really two pools
+    pm = PoolManager()
+    a = pm.connection_from_host("h.example", scheme=scheme, pool_kwargs={name: value})
+    b = pm.connection_from_host(HOSTS[h2], port=port, scheme=scheme)
+    if a is b:
+        return _fail("%s=%r shares a pool with the default context" % (name, value))
+    got = getattr(a, name, None) if name not in ("cert_reqs", "assert_hostname", "ssl_minimum_version") else a.conn_kw.get(name)
+    mark("falsy distinct")
+    return True
+
+
+def c18_falsy(idx: int) -> bool:
+    """
+    pre: 0 <= idx < P.n
+    post: _
+    """
+    return run(_falsy_point, idx)
+
+
+def _map_body(kwi, differ, front, h2, p2, https):
     names = STR_KW + INT_KW + BOOL_KW + OBJ_KW
     kw_name = names[kwi]
     real_kw = {"timeout_obj": "timeout", "retries_obj": "retries", "assert_hostname_false": "assert_hostname",
@@ -191,7 +253,10 @@ def _map_body(kwi, differ, placement, h2, p2, https):
         v1, v2 = OBJ_VALUES(kw_name)[:2]
     if not differ:
         v2 = v1
-    pm = PoolManager()
+    if front and kw_name in ("_proxy", "_proxy_headers", "_proxy_config", "_socks_options"):
+        return True           # the proxy manager sets these itself
+    pm = PoolManager() if front == 0 else ProxyManager("http://proxy.example:3128")
+    defaults_before = dict(pm.connection_pool_kw)
     port2 = (":443" if https else ":80") if p2 else ""
     a = pm.connection_from_url("%s://h.example/" % scheme, pool_kwargs={real_kw: v1})
     url2 = "%s://%s%s/x" % (scheme.upper() if h2 == 1 else scheme, HOSTS[h2], port2)
@@ -204,17 +269,25 @@ def _map_body(kwi, differ, placement, h2, p2, https):
         mark("shared")
         if a is not b:
             return _fail("equal contexts (up to case/default port) got different pools")
-    if pm.connection_pool_kw != {}:
+    if pm.connection_pool_kw != defaults_before:
         return _fail("pool_kwargs leaked into the manager defaults")
     return True
 
 
-def c18_map(kwi: int, differ: bool, placement: int, h2: int, p2: bool, https: bool) -> bool:
+def map_dims(part):
+    return [list(range(part["nkw"])), [False, True], [0, 1], [0, 1, 2], [False, True], [False, True]]
+
+
+def _map_point(idx):
+    return _map_body(*decode_point(idx, map_dims))
+
+
+def c18_map(idx: int) -> bool:
     """
-    pre: 0 <= kwi < P.nkw and placement == 1 and 0 <= h2 <= 2
+    pre: 0 <= idx < P.n
     post: _
     """
-    return run(_map_body, kwi, differ, placement, h2, p2, https)
+    return run(_map_point, idx)
 
 
 def _reject_body(i, https):
@@ -238,12 +311,23 @@ def _reject_body(i, https):
     return field in PoolKey._fields
 
 
-def c18_reject(i: int, https: bool) -> bool:
+def reject_dims(part):
+    return [list(range(len(constructor_keywords()))), [False, True]]
+
+
+def _reject_point(idx):
+    return _reject_body(*decode_point(idx, reject_dims))
+
+
+def c18_reject(idx: int) -> bool:
     """
-    pre: 0 <= i < P.n
+    pre: 0 <= idx < P.n
     post: _
     """
-    return run(_reject_body, i, https)
+    return run(_reject_point, idx)
+
+
+DIMS = {"c18_map": map_dims, "c18_reject": reject_dims, "c18_falsy": falsy_dims}
 
 
 def JOBS(tier):
@@ -251,9 +335,10 @@ def JOBS(tier):
     t = 120 if quick else 600
     jobs = []
     for kw in STR_KW + INT_KW + BOOL_KW + OBJ_KW:
-        jobs.append({"func": "c18_key", "part": {"kw": kw}, "timeout": t})
+        jobs.append({"func": "c18_key", "part": {"kw": kw}, "timeout": 80 if quick else t})
     jobs.append({"func": "c18_map", "part": {"nkw": len(STR_KW + INT_KW + BOOL_KW + OBJ_KW)}, "timeout": t})
-    jobs.append({"func": "c18_reject", "part": {"n": len(constructor_keywords())}, "timeout": t})
+    jobs.append({"func": "c18_reject", "part": {}, "timeout": t})
+    jobs.append({"func": "c18_falsy", "part": {}, "timeout": t})
     return jobs
 
 
@@ -268,9 +353,10 @@ def SELFTEST(tier):
 
 EVIDENCE = {
     "bounds": {"quick": "for each of the 26 PoolKey fields: two contexts differing only there; str/int/bool values are "
-                        "UNCONSTRAINED symbolic, object-valued keywords use two fixtures whose inner str/int are symbolic; 3 "
-                        "placements (constructor, pool_kwargs, override of a constructor default) x 3 host casings x "
-                        "explicit/implicit default port x http/https",
+                        "UNCONSTRAINED symbolic, object-valued keywords use two fixtures whose inner str/int are symbolic; 60 "
+                        "combinations of placement (constructor, pool_kwargs, override of a constructor default) x host casing x "
+                        "explicit/implicit default port x http/https; explicit falsy values (assert_hostname=False, cert_reqs=CERT_NONE, "
+                        "retries=0/False, ...) vs. the keyword left out; map layer through PoolManager and ProxyManager",
                "thorough": "same, larger budget"},
     "outside": ["the LRU dict lookup with symbolic keys (hashing realises them): the map layer uses concrete fixtures",
                 "ProxyManager-specific key parts beyond _proxy/_proxy_headers/_proxy_config fixtures"],
